@@ -102,7 +102,7 @@ func directiveTruncate(value data.Value, args []data.Value) data.Value {
 		}
 	}
 
-	for !utf8.RuneStart(str[maxLen]) {
+	for maxLen > 0 && !utf8.RuneStart(str[maxLen]) {
 		maxLen--
 	}
 
